@@ -9,6 +9,7 @@ D. status propagation: ALL bodies of up to 3 (thorough 4) lines over {succeeding
    set -e, function call (status 4), source (status 2)} at top level and inside an `if` body.
 Executed by the real binary; oracle = reference model of frames, persistence and status propagation."""
 import itertools
+import json
 import os
 
 from .. import common
@@ -261,3 +262,16 @@ def run(rep, tier):
     rep.sample({'files': jobs[len(jobs) - 5][0]})
     if rep.outcomes.get('ok:D', 0) < 20 or rep.outcomes.get('ok:A', 0) < 50:
         rep.machinery.append('vacuity guard: too few passing cases')
+
+
+def replay(rec):
+    """run the recorded script files with the recorded arguments; prints what the helpers received"""
+    c = rec['case']
+    o = run_script_case((c['files'], tuple(c.get('script_args', [])), None))
+    print(json.dumps({'records': [r[:3] for r in o['recs']], 'status': o['status'], 'stderr': o['err']}, indent=1))
+    print('expected:', json.dumps(rec.get('expected')))
+    same = rec.get('observed', {}).get('records') == [list(r[:3]) if not isinstance(r[2], tuple) else [r[0], r[1], list(r[2])] for r in o['recs']]
+    if same:
+        print('VIOLATION property=C15 replay=(this file)   (same observation as recorded)')
+        return 1
+    return 0
